@@ -172,6 +172,7 @@ func (m *roaManager) HandleROAEvent(ev *roaEvent) {
 		client.state.Downtime = time.Now().Unix()
 		// clear state
 		client.endOfData = false
+		client.queries = nil
 		client.pendingROAs = make([]*table.ROA, 0)
 		client.state.RpkiMessages = oc.RpkiMessages{}
 		client.conn = nil
@@ -263,9 +264,10 @@ func (m *roaManager) handleRTRMsg(client *roaClient, state *oc.RpkiServerState, 
 			}
 		case *rtr.RTREndOfData:
 			received.EndOfData++
-			if client.sessionID != msg.SessionID {
+			if full := client.answered(); client.sessionID != msg.SessionID || full {
 				// remove all ROAs related with the
-				// previous session
+				// previous session, or superseded by
+				// this answer to a Reset Query
 				m.table.DeleteAll(client.host)
 			}
 			client.sessionID = msg.SessionID
@@ -280,6 +282,8 @@ func (m *roaManager) handleRTRMsg(client *roaClient, state *oc.RpkiServerState, 
 			}
 			client.pendingROAs = make([]*table.ROA, 0)
 		case *rtr.RTRCacheReset:
+			// the answer to a Serial Query the cache cannot serve
+			client.answered()
 			if err := client.softReset(); err != nil {
 				m.logger.Error("Failed to send soft reset",
 					slog.String("Topic", "rpki"),
@@ -288,6 +292,8 @@ func (m *roaManager) handleRTRMsg(client *roaClient, state *oc.RpkiServerState, 
 			}
 			received.CacheReset++
 		case *rtr.RTRErrorReport:
+			// e.g. "No Data Available" in answer to a query
+			client.answered()
 			received.Error++
 		}
 	} else {
@@ -349,9 +355,14 @@ type roaClient struct {
 	timer        *time.Timer
 	lifetime     int64
 	endOfData    bool
-	pendingROAs  []*table.ROA
-	cancelfnc    context.CancelFunc
-	ctx          context.Context
+	// queries holds the types of the queries sent and not yet answered,
+	// oldest first; the cache answers them in order. The answer to a Reset
+	// Query is the complete data of the cache and replaces what the table
+	// holds from this server; the answer to a Serial Query is merged.
+	queries     []uint8
+	pendingROAs []*table.ROA
+	cancelfnc   context.CancelFunc
+	ctx         context.Context
 }
 
 func newRoaClient(address, port string, ch chan *roaEvent, lifetime int64) *roaClient {
@@ -377,8 +388,20 @@ func (c *roaClient) enable(serial uint32) error {
 			return err
 		}
 		c.state.RpkiMessages.RpkiSent.SerialQuery++
+		c.queries = append(c.queries, rtr.RTR_SERIAL_QUERY)
 	}
 	return nil
+}
+
+// answered removes the oldest outstanding query and reports whether it was a
+// Reset Query.
+func (c *roaClient) answered() bool {
+	if len(c.queries) == 0 {
+		return false
+	}
+	q := c.queries[0]
+	c.queries = c.queries[1:]
+	return q == rtr.RTR_RESET_QUERY
 }
 
 func (c *roaClient) softReset() error {
@@ -390,6 +413,7 @@ func (c *roaClient) softReset() error {
 			return err
 		}
 		c.state.RpkiMessages.RpkiSent.ResetQuery++
+		c.queries = append(c.queries, rtr.RTR_RESET_QUERY)
 		c.endOfData = false
 		c.pendingROAs = make([]*table.ROA, 0)
 	}
